@@ -995,6 +995,12 @@ pub struct TtCase {
     pub tol: u8,
     pub seed: Vec<i8>,
     pub raw: Vec<u32>,
+    /// decimal exponent the whole vector is scaled by (extreme floats: 1e-23 .. 1e30)
+    #[serde(default)]
+    pub mag: i8,
+    /// every component made non-positive
+    #[serde(default)]
+    pub neg: bool,
 }
 
 pub fn tt_strategy(_t: Tier) -> BoxedStrategy<TtCase> {
@@ -1006,8 +1012,10 @@ pub fn tt_strategy(_t: Tier) -> BoxedStrategy<TtCase> {
         0u8..3,
         proptest::collection::vec(-8i8..9, 8..40),
         proptest::collection::vec(strat::f32_bits_moderate(), 4..24),
+        prop_oneof![6 => Just(0i8), 4 => proptest::sample::select(vec![-23i8, -15, -12, -11, -9, -6, 6, 11, 13, 15, 20, 30])],
+        proptest::bool::weighted(0.25),
     )
-        .prop_map(|(kind, shape, rank, max_rank_extra, tol, seed, raw)| TtCase { kind, shape, rank, max_rank_extra, tol, seed, raw })
+        .prop_map(|(kind, shape, rank, max_rank_extra, tol, seed, raw, mag, neg)| TtCase { kind, shape, rank, max_rank_extra, tol, seed, raw, mag, neg })
         .boxed()
 }
 
@@ -1123,6 +1131,21 @@ pub fn tt_check(c: &TtCase, ctx: &mut CaseCtx) -> Result<(), Fail> {
         },
     };
     ctx.label(format!("tt:{what}"));
+    // the same vector at another magnitude (exactly representable scaling keeps the rank) and,
+    // sometimes, with every component non-positive
+    let x: Vec<f32> = if c.mag != 0 || c.neg {
+        let f = 10f64.powi(i32::from(c.mag));
+        ctx.label(format!("tt:magnitude 1e{}{}", c.mag, if c.neg { ", all components <= 0" } else { "" }));
+        x.iter().map(|v| { let w = f64::from(*v) * f; (if c.neg { -w.abs() } else { w }) as f32 }).collect()
+    } else {
+        x
+    };
+    if x.iter().any(|v| !v.is_finite()) {
+        ctx.label("tt:skipped (scaled vector overflows f32)");
+        return Ok(());
+    }
+    // |x| of a rank-r vector is not rank r in general: the bound is claimed for the sign-preserving cases only
+    let exact_rank = if c.neg && c.kind != 1 { None } else { exact_rank };
     let max_rank = exact_rank.unwrap_or(rank) + usize::from(c.max_rank_extra);
     let cfg = TTConfig { shape: shape.clone(), max_rank, tolerance: tol };
     let tt = match tt_decompose(&x, &cfg) {
@@ -1146,7 +1169,7 @@ pub fn tt_check(c: &TtCase, ctx: &mut CaseCtx) -> Result<(), Fail> {
     let norm: f64 = x.iter().map(|v| f64::from(*v).powi(2)).sum::<f64>().sqrt();
     let err: f64 = x.iter().zip(&y).map(|(a, b)| (f64::from(*a) - f64::from(*b)).powi(2)).sum::<f64>().sqrt();
     // never worse than storing nothing
-    if err > norm * 1.001 + 1e-6 {
+    if err > norm * 1.001 + 1e-6 * 10f64.powi(i32::from(c.mag).min(0)) {
         ctx.fail(format!("tt:{what}:worse-than-zero-vector"), format!("shape {shape:?} max_rank {max_rank} tol {tol}: error {err:.4e}, norm {norm:.4e}"))?;
     }
     if exact_rank.is_some() && norm > 0.0 {
